@@ -14,7 +14,7 @@ from .common import CT, DT, LX, PB, PL, ckey
 
 P = "C02"
 EXPLANATION = (
-    "Static rules D2.1-D2.9 (DESIGN.md section 5, C02): the request message is assembled once (build_message extends the message "
+    "Static rules D2.1-D2.10 (DESIGN.md section 5, C02): the request message is assembled once (build_message extends the message "
     "list only under the _msg_setup guard; who-may-write the guard flag over the whole package, with a positive control); "
     "read-modify-write size/OR/AND fields cut to one width, initial masks, set_bit operators and field order; write-tag and "
     "fragmented write-tag message layouts against the Logix data-access specification; fragment emission as an exact tiling "
@@ -460,3 +460,54 @@ def d2_9(ctx):
                   (f"bit {bad[2]} is {bad[0]} for a {bad[1]}-byte type" if bad else "no range test" if not conds else "the refusing branch does not raise RequestError only")
                   + f" before `{src(use.ast)}`: the masks are cut to {width_attr} bytes, so a bit outside the type is dropped yet reported as written (or overflows the 64-bit mask encoder while the packet is built)",
                   tests=[src(t.ast) for t, _ in conds])
+
+
+@rule(P, "D2.10", "T-WITNESS", floor=6)
+def d2_10(ctx):
+    """BOOL-array writes cover every requested BOOL or are refused: encode_value is folded (sa/miniinterp.py) on parsed
+    requests as _parse_tag_request produces them for `flags[start]{count}` with aligned starts; the array encoder is a
+    witness that raises when handed fewer BOOLs than 32 x the element count.  Whenever a value comes back, 32 x the element
+    count sent covers `count`, the same count is stored in the request and the encoder got exactly that count."""
+    from ..miniinterp import Obj, Raise, run_function
+
+    fn = ctx.model.func(f"{LX}:encode_value")
+    p = fn.node.args.args[0].arg
+    for start, count, supplied in ((0, 32, 32), (0, 40, 40), (0, 64, 64), (32, 72, 72), (32, 64, 64), (0, 40, 64), (64, 96, 200), (0, 33, 33)):
+        total = start + count
+        elements0 = total // 32 + (1 if total % 32 else 0)
+        calls = []
+        type_obj = Obj(kind="array")
+        parsed = {"value": [True] * supplied, "elements": elements0, "bit": start, "bool_elements": count,
+                  "tag_info": {"data_type_name": "DWORD", "type_class": type_obj, "data_type": "DWORD", "tag_type": "atomic"}}
+
+        def hook(call, env, it, _calls=calls):
+            n_ = call_name(call) or ""
+            if n_ == "issubclass":
+                return True
+            if n_ == "isinstance":
+                v = it.ev(call.args[0], env)
+                kinds = {"bytes": (bytes,), "str": (str,), "Sequence": (list, tuple, str, bytes), "int": (int,), "list": (list,)}
+                names = [atom_name(x) for x in (call.args[1].elts if isinstance(call.args[1], ast.Tuple) else [call.args[1]])]
+                return any(isinstance(v, kinds.get(nm.split(".")[-1], ())) for nm in names)
+            if isinstance(call.func, ast.Attribute) and call.func.attr == "encode" and atom_name(call.func.value) == "_type":
+                vals = it.ev(call.args[0], env)
+                cnt = it.ev(call.args[1], env) if len(call.args) > 1 else None
+                _calls.append((len(vals), cnt))
+                if cnt is not None and len(vals) < 32 * cnt:
+                    raise Raise("DataError")
+                return bytes(4 * (cnt if cnt is not None else len(vals) // 32))
+            return UNKNOWN
+
+        kind, res = run_function(ctx, fn.module, fn.node, {p: parsed}, call_hook=hook, deep=False)
+        key = ckey(fn, f"bool-array@[{start}]{{{count}}}/{supplied}")
+        if kind == "unknown":
+            ctx.undecided(key, fn.node, f"encode_value not foldable on this witness: {res}")
+            continue
+        if kind == "raise":
+            ctx.check(res == "RequestError", key, fn.node, f"flags[{start}]{{{count}}} with {supplied} values is refused with RequestError", f"flags[{start}]{{{count}}}: {res} escapes encode_value instead of RequestError", outcome=res)
+            continue
+        sent = calls[-1][1] if calls else None
+        ok = bool(calls) and isinstance(sent, int) and 32 * sent >= count and parsed.get("elements") == sent and isinstance(res, (bytes, bytearray)) and len(res) == 4 * sent
+        ctx.check(ok, key, fn.node, f"flags[{start}]{{{count}}}: {sent} DWORD(s) encoded and announced",
+                  f"flags[{start}]{{{count}}} with {supplied} values: {sent} DWORD(s) are encoded ({len(res) if isinstance(res, (bytes, bytearray)) else res} bytes, request element count {parsed.get('elements')}) - "
+                  f"{count - 32 * sent if isinstance(sent, int) else '?'} requested BOOL(s) are never written although the write is reported as successful", sent=sent, elements=parsed.get("elements"))
